@@ -204,6 +204,7 @@ pub fn panic_sig(entry: &str) -> String {
 /// Runs one case with panic capture; a panic (in this or any other thread) is a failure unless
 /// the property consumed it itself with `take_panics`.
 pub fn run_case<P: Property>(case: &P::Case) -> Outcome {
+    let _ = std::panic::catch_unwind(crate::fscn::cleanse_thread_local_fast);
     let _ = take_panics();
     let r = std::panic::catch_unwind(std::panic::AssertUnwindSafe(|| P::run(case)));
     let panics = take_panics();
@@ -957,4 +958,153 @@ pub fn check<P: Property>(tier: Tier, seed: u64) -> i32 {
         return 2;
     }
     0
+}
+
+// ---------------------------------------------------------------------------------------------
+// coverage-guided stage: one libFuzzer iteration = one case of the property's own strategy,
+// generated from the fuzzer's bytes through proptest's pass-through RNG (a local change of the
+// bytes is a local change of the generated case), judged by the property's own oracle.
+
+pub struct FuzzStats {
+    pub executions: std::sync::atomic::AtomicU64,
+    pub nontrivial: Mutex<BTreeSet<u64>>,
+    pub samples: Mutex<Vec<String>>,
+}
+pub static FUZZ_STATS: FuzzStats = FuzzStats {
+    executions: std::sync::atomic::AtomicU64::new(0),
+    nontrivial: Mutex::new(BTreeSet::new()),
+    samples: Mutex::new(Vec::new()),
+};
+extern "C" fn fuzz_atexit() {
+    fuzz_report();
+    crate::util::cleanup_scratch_base();
+}
+
+/// Called by the fuzz target for every input. A failure that is not a listed open finding
+/// is written as an ordinary JSON replay file (replays/<ID>/fuzz-*.json), announced on stderr as
+/// "FUZZ-FAILURE property=<ID> replay=<path> sig=<sig>", and turned into a panic so that libFuzzer
+/// stops and keeps the bytes; the driver script then verifies the JSON replay in a fresh process.
+pub fn fuzz_one<P: Property>(data: &[u8]) {
+    use proptest::strategy::ValueTree;
+    use proptest::test_runner::{RngAlgorithm, TestRng};
+    thread_local! {
+        static FINDINGS: RefCell<Option<Vec<kf::Finding>>> = const { RefCell::new(None) };
+    }
+    static INIT: std::sync::Once = std::sync::Once::new();
+    INIT.call_once(|| {
+        if let Ok(tz) = std::env::var("FLV_FUZZ_TZ") {
+            crate::vtime::apply_tz(&tz);
+        }
+        std::env::set_var("FLV_TIER", "quick");
+        process_init::<P>();
+        unsafe { libc::atexit(fuzz_atexit) };
+    });
+    // (proptest's own pass-through stream yields zeros once exhausted, on which rand's rejection
+    // sampling never terminates, and every flat_map halves what is left: /verif/fuzz builds with a
+    // patched copy, fuzz/vendor/proptest, whose exhausted stream continues pseudo-randomly)
+    let rng = TestRng::from_seed(RngAlgorithm::PassThrough, data);
+    let config = Config {
+        failure_persistence: None,
+        ..Config::default()
+    };
+    let mut runner = TestRunner::new_with_rng(config, rng);
+    // building a strategy (regex compilation) costs far more than drawing from it: built once
+    thread_local! {
+        static STRAT: RefCell<Option<Box<dyn std::any::Any>>> = const { RefCell::new(None) };
+    }
+    let tree = STRAT.with(|st| {
+        let mut st = st.borrow_mut();
+        let b = st.get_or_insert_with(|| Box::new(P::strategy(Tier::Quick)) as Box<dyn std::any::Any>);
+        let strat = b.downcast_ref::<BoxedStrategy<P::Case>>().expect("one property per process");
+        strat.new_tree(&mut runner)
+    });
+    let Ok(tree) = tree else {
+        return;
+    };
+    let case = tree.current();
+    let o = run_case::<P>(&case);
+    FUZZ_STATS.executions.fetch_add(1, std::sync::atomic::Ordering::Relaxed);
+    let known = FINDINGS.with(|f| {
+        let mut f = f.borrow_mut();
+        let list = f.get_or_insert_with(kf::load_open);
+        o.fail.as_ref().is_some_and(|x| kf::match_open(list, P::ID, &x.sig).is_some())
+    });
+    if o.nontrivial && !known {
+        let js = serde_json::to_string(&case).unwrap();
+        let fresh = FUZZ_STATS.nontrivial.lock().unwrap_or_else(|p| p.into_inner()).insert(fnv(js.as_bytes()));
+        let mut sm = FUZZ_STATS.samples.lock().unwrap_or_else(|p| p.into_inner());
+        if fresh && sm.len() < 3 && data.len() >= 8 {
+            sm.push(js);
+        }
+    }
+    if let Some(f) = o.fail {
+        if !known {
+            // shrink with the value tree the bytes produced (the oracle decides, as in the worker)
+            let is_new_failure = |o: &Outcome| -> Option<Failure> {
+                let f = o.fail.clone()?;
+                let listed = FINDINGS.with(|l| l.borrow().as_ref().is_some_and(|l| kf::match_open(l, P::ID, &f.sig).is_some()));
+                (!listed).then_some(f)
+            };
+            let mut tree = tree;
+            let mut best = (case.clone(), f.clone());
+            let mut iters = 0;
+            if tree.simplify() {
+                loop {
+                    iters += 1;
+                    if iters > 300 {
+                        break;
+                    }
+                    let c = tree.current();
+                    let o2 = run_case::<P>(&c);
+                    if let Some(f2) = is_new_failure(&o2) {
+                        best = (c, f2);
+                        if !tree.simplify() {
+                            break;
+                        }
+                    } else if !tree.complicate() {
+                        break;
+                    }
+                }
+            }
+            let rename = |v: &mut Violation, tag: &str| {
+                let p = PathBuf::from(&v.replay);
+                let renamed = p.with_file_name(format!("fuzz-{tag}{}", p.file_name().unwrap().to_string_lossy()));
+                if std::fs::rename(&p, &renamed).is_ok() {
+                    v.replay = renamed.to_string_lossy().to_string();
+                }
+            };
+            let mut v0 = save_violation::<P>(&case, &f, "found by the coverage-guided stage (case as generated)");
+            rename(&mut v0, "orig-");
+            let mut v = save_violation::<P>(&best.0, &best.1, "found by the coverage-guided stage (shrunk)");
+            rename(&mut v, "");
+            eprintln!("FUZZ-FAILURE property={} replay={} alt={} sig={}", P::ID, v.replay, v0.replay, v.sig);
+            fuzz_report();
+            crate::util::cleanup_scratch_base();
+            std::process::abort();
+        }
+    }
+}
+
+/// one line of statistics for the driver ("FUZZ-STATS executions=.. distinct_nontrivial=..")
+pub fn fuzz_report() {
+    eprintln!(
+        "FUZZ-STATS executions={} distinct_nontrivial={}",
+        FUZZ_STATS.executions.load(std::sync::atomic::Ordering::Relaxed),
+        FUZZ_STATS.nontrivial.lock().unwrap_or_else(|p| p.into_inner()).len()
+    );
+    for s in FUZZ_STATS.samples.lock().unwrap_or_else(|p| p.into_inner()).iter() {
+        eprintln!("FUZZ-SAMPLE {s}");
+    }
+    // the driver runs a job as several short-lived processes (flexi_logger's flusher threads never
+    // end) and counts distinct non-trivial cases over all of them from these hashes
+    if let Ok(f) = std::env::var("FLV_FUZZ_NT_FILE") {
+        use std::io::Write;
+        if let Ok(mut fh) = std::fs::OpenOptions::new().create(true).append(true).open(f) {
+            let mut out = String::new();
+            for h in FUZZ_STATS.nontrivial.lock().unwrap_or_else(|p| p.into_inner()).iter() {
+                out.push_str(&format!("{h:016x}\n"));
+            }
+            let _ = fh.write_all(out.as_bytes());
+        }
+    }
 }
